@@ -1274,6 +1274,45 @@ def probe_vmtuple(ctx):
                  {'tuple_after': [1, 2, 3], 'hashes': 'equal'})
 
 
+def probe_vmtuple_parse(ctx):
+    """every VmStack.deserialize builds its own tuples: parsing stacks that hold tuples of length 0, 1, 2, 3, 5 (nested too),
+    several times and interleaved, always gives the stored values, and a tuple handed out earlier never changes afterwards"""
+    from pytoniq_core.tlb.vm_stack import VmStack, VmTuple
+    ctx.case(('probe-vmtuple-parse',))
+
+    def show(v):
+        if isinstance(v, VmTuple):
+            return [show(x) for x in v.list] if hasattr(v, 'list') else repr(v)
+        if isinstance(v, (list, tuple)):
+            return [show(x) for x in v]
+        return v if isinstance(v, int) or v is None else O.canon(v)
+    shapes = [[], [7], [7, 8], [1, 2, 3], [1, 2, 3, 4, 5], [[], [9]], [[4], [5, [6]]], [None], [[[]]]]
+
+    def mk(x):
+        return VmTuple([mk(y) for y in x]) if isinstance(x, list) else x
+    stacks = [([mk(sh)], [sh]) for sh in shapes] + [([mk([1]), mk([2]), mk([])], [[1], [2], []])]
+    cells = [(VmStack.serialize(vs), want) for vs, want in stacks]
+    handed = []
+    inp = {'probe': 'vmtuple-parse', 'call': 'VmStack.deserialize on stacks holding tuples of lengths 0,1,2,3,5 and nested ones, three rounds'}
+    for rnd in range(3):
+        order = list(range(len(cells)))
+        if rnd == 1:
+            order.reverse()
+        for k in order:
+            c, want = cells[k]
+            got = VmStack.deserialize(c.begin_parse())
+            if show(got) != want:
+                ctx.fail('order-dependence:vmtuple-parse', 'VmStack.deserialize of a stack holding tuples gives another result after other tuple '
+                         'stacks were parsed in this process', dict(inp, shape=want, round=rnd), show(got), want)
+                return
+            handed.append((got, want))
+            for old, w in handed:
+                if show(old) != w:
+                    ctx.fail('aliasing:vmtuple-parse', 'a tuple returned by an earlier VmStack.deserialize changed when another stack was parsed',
+                             dict(inp, shape=w, round=rnd), show(old), w)
+                    return
+
+
 def probe_tlb(ctx):
     from pytoniq_core.tlb.account import StateInit, TickTock
     from pytoniq_core import begin_cell
@@ -1344,7 +1383,7 @@ def probe_address(ctx):
             return
 
 
-PROBES = {'address': probe_address, 'ctor-input': probe_ctor_input, 'order': probe_order, 'to_boc-options': probe_to_boc, 'hashmap': probe_hashmap,
+PROBES = {'address': probe_address, 'vmtuple-parse': probe_vmtuple_parse, 'ctor-input': probe_ctor_input, 'order': probe_order, 'to_boc-options': probe_to_boc, 'hashmap': probe_hashmap,
           'vmstack': probe_vmstack, 'vmtuple': probe_vmtuple, 'tlb': probe_tlb}
 
 
